@@ -17,6 +17,8 @@
   (the compiler validates the strings before they get here, so the error arm is unreachable on compiled graphs).
 -/
 import D2V.Model.ThemeCode
+import D2V.Model.ExportSteps
+import D2V.Gen.Export
 
 namespace D2V.Export
 open D2V.Themes (Rules)
@@ -222,24 +224,40 @@ def applyTheme (rules : Option Rules) (o : Obj) (s : ShapeStyle) : ShapeStyle :=
     let s := if r.mono then { s with fontFamily := "mono" } else s
     if r.c4 then c4Rules o s else s
 
-/-- `toShape` from `BaseShape()` up to (not including) the second `applyStyles` -/
-def preStyled (rules : Option Rules) (o : Obj) : ShapeStyle :=
+/-- the shape before the style pipeline: `BaseShape()`, the `Text()` fields, the sequence-diagram stroke widths -/
+def initShape (o : Obj) : ShapeStyle :=
   let s := { baseShape with bold := o.textBold, italic := o.textItalic, fontSize := textFontSize o }
   let s := if o.isSeqDiagram then { s with strokeWidth := 0 } else s
-  let s := if o.isSeqGroup then { s with strokeWidth := 0, blend := true } else s
-  let s := applyStyles o s
-  let s := applyTheme rules o s
-  let s := { s with color := if s.italic then "N2" else "N1" }
-  match rules with
-  | some r => if r.c4 && o.style.fontColor.isNone then { s with color := if o.nChildren > 0 then "N1" else "N7" } else s
-  | none => s
+  if o.isSeqGroup then { s with strokeWidth := 0, blend := true } else s
 
-/-- the part of `toShape` up to and including the second `applyStyles` -/
-def styled (rules : Option Rules) (o : Obj) : ShapeStyle := applyStyles o (preStyled rules o)
+/-- one style-relevant statement of `toShape` -/
+def runStep (rules : Option Rules) (o : Obj) (st : Step) (s : ShapeStyle) : ShapeStyle :=
+  match st with
+  | .applyStyles => applyStyles o s
+  | .applyTheme => applyTheme rules o s
+  | .textColor => { s with color := if s.italic then "N2" else "N1" }
+  | .c4FontColor =>
+    match rules with
+    | some r => if r.c4 && o.style.fontColor.isNone then { s with color := if o.nChildren > 0 then "N1" else "N7" } else s
+    | none => s
 
-/-- the pipeline **without** the second `applyStyles` (the mutation DESIGN §5.8 lists) — used to show the second call
+/-- the statements `steps`, in order -/
+def runSteps (rules : Option Rules) (o : Obj) (steps : List Step) (s : ShapeStyle) : ShapeStyle :=
+  steps.foldl (fun s st => runStep rules o st s) s
+
+/-- the part of `toShape` up to and including the last pipeline statement — the statement list is the one the
+    translator reads off the current `toShape` (`D2V.Gen.Export.toShapeSteps`) -/
+def styled (rules : Option Rules) (o : Obj) : ShapeStyle :=
+  runSteps rules o D2V.Gen.Export.toShapeSteps (initShape o)
+
+/-- the pipeline up to (not including) its last statement -/
+def preStyled (rules : Option Rules) (o : Obj) : ShapeStyle :=
+  runSteps rules o D2V.Gen.Export.toShapeSteps.dropLast (initShape o)
+
+/-- the pipeline **without** a second `applyStyles` (the mutation DESIGN §5.8 lists) — used to show the second call
     is what makes the property true -/
-def styledOnce (rules : Option Rules) (o : Obj) : ShapeStyle := preStyled rules o
+def styledOnce (rules : Option Rules) (o : Obj) : ShapeStyle :=
+  runSteps rules o [.applyStyles, .applyTheme, .textColor, .c4FontColor] (initShape o)
 
 /-- style fields of `toShape(obj, g)` -/
 def toShapeStyle (rules : Option Rules) (o : Obj) : ShapeStyle :=
